@@ -69,3 +69,45 @@ func FindName(idx int, want []byte, bits int) string {
 	}
 	panic("verifmodel: no name found for hash prefix")
 }
+
+// FindRelatedNames searches (natively) for a name whose murmur3 hash agrees with
+// want on its leading bits AND whose derived probe (variant 1: proper suffix,
+// 2: proper prefix, 3: extension) hashes to wantProbe's leading bits.
+func FindRelatedNames(idx int, want, wantProbe []byte, bits int, variant int) (string, string) {
+	pre := func(b []byte) uint64 {
+		var w uint64
+		for _, x := range b {
+			w = w<<8 | uint64(x)
+		}
+		if bits == 0 {
+			return 0
+		}
+		return w >> (64 - uint(bits))
+	}
+	hp := func(s string) uint64 {
+		if bits == 0 {
+			return 0
+		}
+		return murmur3.Sum64([]byte(s)) >> (64 - uint(bits))
+	}
+	w0, wp := pre(want), pre(wantProbe)
+	for ctr := 0; ctr < 1<<28; ctr++ {
+		name := "n" + strconv.Itoa(idx) + "_" + strconv.Itoa(ctr)
+		if hp(name) != w0 {
+			continue
+		}
+		var probe string
+		switch variant {
+		case 1:
+			probe = name[1:]
+		case 2:
+			probe = name[:len(name)-1]
+		default:
+			probe = name + "q"
+		}
+		if hp(probe) == wp {
+			return name, probe
+		}
+	}
+	panic("verifmodel: no related names found")
+}
